@@ -81,6 +81,30 @@ Fixpoint providers_unique (ps : list procdef) (seen : list string) : bool :=
     providers_unique r (map ident (pr_providers p) ++ seen)
   end.
 
+(* the 'uses' relation among top-level processes must be acyclic (the initial configuration is a
+   forest).  The Go code runs a depth-first search; the model computes the same verdict by Kahn's
+   iteration: repeatedly mark the processes all of whose used processes are marked. *)
+Definition provider_index (ps : list procdef) (x : string) : option nat :=
+  (fix go (l : list procdef) (i : nat) (acc : option nat) : option nat :=
+     match l with
+     | [] => acc
+     | q :: r => go r (S i) (if str_mem x (map ident (pr_providers q)) then Some i else acc)
+     end) ps 0 None.
+Definition proc_uses (ps : list procdef) (p : procdef) : list nat :=
+  flat_map (fun fn => match provider_index ps (ident fn) with Some j => [j] | None => [] end)
+           (names_first_only (free_names (pr_body p)) (pr_providers p)).
+Definition nat_mem (i : nat) (l : list nat) : bool := existsb (Nat.eqb i) l.
+Fixpoint kahn (fuel : nat) (uses : list (list nat)) (done : list nat) : list nat :=
+  match fuel with
+  | O => done
+  | S f =>
+    kahn f uses (done ++ filter (fun i => negb (nat_mem i done) && forallb (fun j => nat_mem j done) (nth i uses []))
+                               (seq 0 (length uses)))
+  end.
+Definition procs_acyclic (ps : list procdef) : bool :=
+  let uses := map (proc_uses ps) ps in
+  (length (kahn (length ps) uses []) =? length ps)%nat.
+
 Definition prelim_procs (D : tenv) (ps : list procdef) (assumed : list name) : tcr (list procdef * list name) :=
   tdo _ <- guard (all_names_unique assumed) "assumed names defined more than once";
   tdo _ <- guard (forallb (fun n => match nty n with Some _ => true | None => false end) assumed) "assumed name has no declared type";
@@ -91,6 +115,7 @@ Definition prelim_procs (D : tenv) (ps : list procdef) (assumed : list name) : t
   tdo _ <- guard (negb (existsb (fun x => str_mem x (map ident assumed)) allp)) "assumed name is later defined as a process";
   tdo (ps', remaining) <- prelim_procs_types D ps (map (fun n => (ident n, true)) assumed') (map (fun x => (x, true)) allp);
   tdo _ <- guard (negb (existsb snd remaining)) "assumed name has never been used";
+  tdo _ <- guard (procs_acyclic ps) "processes depend on each other cyclically";
   TOk (ps', assumed').
 
 (* produceFunctionDefinitionsEnvironment *)
